@@ -111,7 +111,7 @@ mut("c15_width0", ["C15"], "roberta_generator.py", "    if width <= 0:", "    if
 # ---------------------------------------------------------------------------------------------------- C16
 mut("c16_wrong_field", ["C16", "C12"], "conditionalrewards.py", "Rewards min reach       : {game['rew_min_reach']}", "Rewards min reach       : {game['rewards']}",
     "wrong source key on a report line")
-mut("c16_stem", ["C16", "C12"], "conditionalrewards.py", "file_name.split(\"/\")[-1].split(\".\")[0]", "file_name.split(\"/\")[-1].split(\"_\")[0].split(\".\")[0]",
+mut("c16_stem", ["C16", "C12"], "conditionalrewards.py", "os.path.splitext(os.path.basename(file_name))[0]", "os.path.splitext(os.path.basename(file_name))[0].split(\"_\")[0]",
     "report named after the part of the stem before the first underscore")
 # ---------------------------------------------------------------------------------------------------- C17
 mut("c17_no_lt_when_forced", ["C17"], "roberta_generator.py",
@@ -130,7 +130,8 @@ REVERTS = [("edf2190", "revert_F3_reverse_dfs", ["C07", "C01"]), ("f849c62", "re
            ("ce29c7c", "revert_F6_count_transitions", ["C09", "C12"]), ("b382449", "revert_F4_width1", ["C08"]),
            ("a068c84", "revert_F5_prob_to_str", ["C17"]), ("b802ce9", "revert_F7_reward_clamp", ["C15"]),
            ("bc2917a", "revert_F8_surviving_mass", ["C02", "C06"]), ("734775f", "revert_F9_reward_overflow", ["C15"]),
-           ("92fdb0a", "revert_F10_stale_num_states", ["C09"]), ("367f1f8", "revert_F11_batch_prune_key", ["C10", "C12"])]
+           ("92fdb0a", "revert_F10_stale_num_states", ["C09"]), ("367f1f8", "revert_F11_batch_prune_key", ["C10", "C12"]),
+           ("7502ae2", "revert_F12_ulp_convergence", ["C06"]), ("18aaa3d", "revert_F13_report_name", ["C16"])]
 
 
 def head(file):
